@@ -315,4 +315,423 @@ theorem executeReal_cancel :
 
 end Transfer
 
+/-! ### generic induction over both loops
+
+`I p rs`: invariant of (population handed to the evaluator, stream at that point); `V rs`: what is known of the stream
+between trials; `Q`: what is assumed of every evaluated population of the log; `E`: what follows if `spawn` or
+`nextEpoch` returns an error of its own. -/
+
+section Generic
+variable (c : Ctl) (o : EpochOpts W) (g0 : Genome W) (eval : Nat → Nat → Pop W → EvalResult W)
+  (I : Pop W → List Nat → Prop) (V : List Nat → Prop) (Q : Pop W → Prop) (E : Prop)
+
+theorem genLoopR_inv (hIV : ∀ p rs, I p rs → V rs)
+    (hstep : ∀ t g p rs, I p rs → Q (eval t g p).pop →
+      ((∃ msg, nextEpoch o (g : Int) (eval t g p).pop rs = .error (.error msg)) → E) ∧
+      ∀ p' rs', nextEpoch o (g : Int) (eval t g p).pop rs = .ok (p', rs') → I p' rs')
+    (t : Nat) : ∀ (fuel g pe : Nat) (cn : Bool) (p : Pop W) (rs : List Nat) (r : GenOutR W) (rs' : List Nat),
+    I p rs → genLoopR c o eval t fuel g pe cn p rs = .ok (r, rs') → (∀ gl ∈ r.log, Q gl.after) →
+    (∀ gl ∈ r.log, ∃ rs0, I gl.pop rs0) ∧ V rs' ∧ (r.exit = .error .epochFailed → E) ∧ r.exit ≠ .error .spawnFailed ∧
+    (∀ gl, r.log.head? = some gl → gl.pop = p) := by
+  intro fuel
+  induction fuel with
+  | zero =>
+    intro g pe cn p rs r rs' hi h _
+    simp only [genLoopR, Except.ok.injEq, Prod.mk.injEq] at h
+    obtain ⟨rfl, rfl⟩ := h
+    exact ⟨by simp, hIV _ _ hi, by simp, by simp, by simp⟩
+  | succ fuel ih =>
+    intro g pe cn p rs r rs' hi h hq
+    unfold genLoopR at h
+    dsimp only at h
+    split at h
+    · simp only [Except.ok.injEq, Prod.mk.injEq] at h
+      obtain ⟨rfl, rfl⟩ := h
+      exact ⟨by simp, hIV _ _ hi, by simp, by simp, by simp⟩
+    · have hone : ∀ (x y : GenLog W), x.pop = p → (∀ gl ∈ [x], ∃ rs0, I gl.pop rs0) ∧ (∀ gl, [x].head? = some gl → gl.pop = p) := by
+        intro x _ hx
+        refine ⟨fun gl hgl => ?_, fun gl hgl => ?_⟩
+        · simp only [List.mem_singleton] at hgl; subst hgl; exact ⟨rs, hx ▸ hi⟩
+        · simp only [List.head?_cons, Option.some.injEq] at hgl; subst hgl; exact hx
+      split at h
+      · simp only [Except.ok.injEq, Prod.mk.injEq] at h
+        obtain ⟨rfl, rfl⟩ := h
+        exact ⟨(hone _ ⟨p, p, .fail, false⟩ rfl).1, hIV _ _ hi, by simp, by simp, (hone _ ⟨p, p, .fail, false⟩ rfl).2⟩
+      · simp only [Except.ok.injEq, Prod.mk.injEq] at h
+        obtain ⟨rfl, rfl⟩ := h
+        exact ⟨(hone _ ⟨p, p, .fail, false⟩ rfl).1, hIV _ _ hi, by simp, by simp, (hone _ ⟨p, p, .fail, false⟩ rfl).2⟩
+      · split at h
+        · simp only [Except.ok.injEq, Prod.mk.injEq] at h
+          obtain ⟨rfl, rfl⟩ := h
+          exact ⟨(hone _ ⟨p, p, .fail, false⟩ rfl).1, hIV _ _ hi, by simp, by simp, (hone _ ⟨p, p, .fail, false⟩ rfl).2⟩
+        · split at h
+          · cases h
+          · next msg hne =>
+            simp only [Except.ok.injEq, Prod.mk.injEq] at h
+            obtain ⟨rfl, rfl⟩ := h
+            have hQ : Q (eval t g p).pop := hq _ List.mem_cons_self
+            exact ⟨(hone _ ⟨p, p, .fail, false⟩ rfl).1, hIV _ _ hi, fun _ => (hstep t g p rs hi hQ).1 ⟨msg, hne⟩, by simp,
+              (hone _ ⟨p, p, .fail, false⟩ rfl).2⟩
+          · next p' rs1 hne =>
+            split at h
+            · cases h
+            · next r2 rs2 hrec =>
+              simp only [Except.ok.injEq, Prod.mk.injEq] at h
+              obtain ⟨rfl, rfl⟩ := h
+              have hQ : Q (eval t g p).pop := hq _ List.mem_cons_self
+              have hi' := (hstep t g p rs hi hQ).2 p' rs1 hne
+              obtain ⟨a1, a2, a3, a4, _⟩ := ih (g + 1) (pe + 1) _ p' rs1 r2 rs2 hi' hrec
+                (fun gl hgl => hq gl (List.mem_cons_of_mem _ hgl))
+              refine ⟨fun gl hgl => ?_, a2, a3, a4, fun gl hgl => ?_⟩
+              · rcases List.mem_cons.mp hgl with rfl | hgl
+                · exact ⟨rs, hi⟩
+                · exact a1 gl hgl
+              · simp only [List.head?_cons, Option.some.injEq] at hgl; subst hgl; rfl
+
+theorem trialLoopR_inv (hIV : ∀ p rs, I p rs → V rs)
+    (hstep : ∀ t g p rs, I p rs → Q (eval t g p).pop →
+      ((∃ msg, nextEpoch o (g : Int) (eval t g p).pop rs = .error (.error msg)) → E) ∧
+      ∀ p' rs', nextEpoch o (g : Int) (eval t g p).pop rs = .ok (p', rs') → I p' rs')
+    (hspawn : ∀ rs, V rs → ((∃ msg, spawn o g0 rs = .error (.error msg)) → E) ∧
+      ∀ p rs', spawn o g0 rs = .ok (p, rs') → I p rs') :
+    ∀ (fuel t : Nat) (cn : Bool) (rs : List Nat) (r : RunOutR W) (rs' : List Nat),
+    V rs → trialLoopR c o g0 eval fuel t cn rs = .ok (r, rs') → (∀ tl ∈ r.log, ∀ gl ∈ tl.gens, Q gl.after) →
+    (∀ tl ∈ r.log, ∀ gl ∈ tl.gens, ∃ rs0, I gl.pop rs0) ∧ (r.err = some .epochFailed → E) ∧
+    (r.err = some .spawnFailed → E ∨ ∃ t, c.verifyOk t = false) ∧
+    (∀ tl ∈ r.log, ∀ p, tl.spawned = some p → (∃ rs0 rs1, spawn o g0 rs0 = .ok (p, rs1)) ∧
+      ∀ gl, tl.gens.head? = some gl → gl.pop = p) ∧
+    (∀ tl ∈ r.log, tl.spawned = none → tl.gens = []) := by
+  intro fuel
+  induction fuel with
+  | zero =>
+    intro t cn rs r rs' _ h _
+    simp only [trialLoopR, Except.ok.injEq, Prod.mk.injEq] at h
+    obtain ⟨rfl, rfl⟩ := h
+    exact ⟨by simp, by simp, by simp, by simp, by simp⟩
+  | succ fuel ih =>
+    intro t cn rs r rs' hv h hq
+    unfold trialLoopR at h
+    split at h
+    · cases h
+    · next msg hsp =>
+      simp only [Except.ok.injEq, Prod.mk.injEq] at h
+      obtain ⟨rfl, rfl⟩ := h
+      exact ⟨by simp, by simp, fun _ => .inl ((hspawn rs hv).1 ⟨msg, hsp⟩), by simp, by simp⟩
+    · next p rs1 hsp =>
+      have hi := (hspawn rs hv).2 p rs1 hsp
+      split at h
+      · next hver =>
+        simp only [Except.ok.injEq, Prod.mk.injEq] at h
+        obtain ⟨rfl, rfl⟩ := h
+        refine ⟨by simp, by simp, fun _ => .inr ⟨t, by simpa using hver⟩, ?_, by simp⟩
+        intro tl htl q hq'
+        simp only [List.mem_singleton] at htl; subst htl
+        simp only [Option.some.injEq] at hq'; subst hq'
+        exact ⟨⟨rs, _, hsp⟩, by simp⟩
+      · split at h
+        · simp only [Except.ok.injEq, Prod.mk.injEq] at h
+          obtain ⟨rfl, rfl⟩ := h
+          refine ⟨by simp, by simp, by simp, ?_, by simp⟩
+          intro tl htl q hq'
+          simp only [List.mem_singleton] at htl; subst htl
+          simp only [Option.some.injEq] at hq'; subst hq'
+          exact ⟨⟨rs, _, hsp⟩, by simp⟩
+        · split at h
+          · cases h
+          · next r1 rs2 hgen =>
+            split at h
+            · next e he =>
+              simp only [Except.ok.injEq, Prod.mk.injEq] at h
+              obtain ⟨rfl, rfl⟩ := h
+              obtain ⟨a1, _, a3, a4, a5⟩ := genLoopR_inv c o eval I V Q E hIV hstep t _ _ _ _ _ _ _ _ hi hgen
+                (fun gl hgl => hq _ List.mem_cons_self gl hgl)
+              refine ⟨?_, ?_, ?_, ?_, by simp⟩
+              · intro tl htl; simp only [List.mem_singleton] at htl; subst htl; exact a1
+              · intro h'; simp only [Option.some.injEq] at h'; subst h'; exact a3 he
+              · intro h'; simp only [Option.some.injEq] at h'; subst h'; exact absurd he a4
+              · intro tl htl q hq'
+                simp only [List.mem_singleton] at htl; subst htl
+                simp only [Option.some.injEq] at hq'; subst hq'
+                exact ⟨⟨rs, _, hsp⟩, a5⟩
+            · next c2 he =>
+              split at h
+              · cases h
+              · next rest rs3 hrest =>
+                simp only [Except.ok.injEq, Prod.mk.injEq] at h
+                obtain ⟨rfl, rfl⟩ := h
+                obtain ⟨a1, a2, _, _, a5⟩ := genLoopR_inv c o eval I V Q E hIV hstep t _ _ _ _ _ _ _ _ hi hgen
+                  (fun gl hgl => hq _ List.mem_cons_self gl hgl)
+                obtain ⟨b1, b2, b3, b4, b5⟩ := ih (t + 1) _ rs2 rest _ a2 hrest
+                  (fun tl htl => hq tl (List.mem_cons_of_mem _ htl))
+                refine ⟨?_, b2, b3, ?_, ?_⟩
+                rotate_left 2
+                · intro tl htl hn
+                  rcases List.mem_cons.mp htl with rfl | htl
+                  · cases hn
+                  · exact b5 tl htl hn
+                · intro tl htl
+                  rcases List.mem_cons.mp htl with rfl | htl
+                  · exact a1
+                  · exact b1 tl htl
+                · intro tl htl q hq'
+                  rcases List.mem_cons.mp htl with rfl | htl
+                  · simp only [Option.some.injEq] at hq'; subst hq'
+                    exact ⟨⟨rs, _, hsp⟩, a5⟩
+                  · exact b4 tl htl q hq'
+
+end Generic
+
+/-! ### (2) the invariant at every evaluation -/
+
+open GoNeat.C01 GoNeat.C02 GoNeat.NoErr Scalar
+
+/-- what holds of every population handed to the evaluator: the C02 population invariant — consistent allocation,
+    unique species ids not above `LastSpecies`, exactly `PopSize` organisms, each listed by exactly one species
+    (the species lists are a duplicate-free rearrangement of `Organisms`), no empty species — and the C01 pool
+    invariant of its genomes together with the start genome -/
+structure EvalInv (o : EpochOpts W) (g0 : Genome W) (p : Pop W) : Prop where
+  uid : UidInv p
+  spid : SpIdInv p
+  size : p.organisms.length = o.popSize
+  perm : (orgUids p.species).Perm p.organisms
+  nodup : p.organisms.Nodup
+  nonempty : ∀ s ∈ p.species, s.orgs ≠ []
+  pool : PoolOk p.reg ([g0] ++ genomesOfPop p)
+
+/-- every genome of such a population is well-formed, retains the start genome's input/bias/output nodes, passes
+    every error exit of `Genesis` and shares the start genome's first gene (as `C01.evolution_wf`) -/
+theorem EvalInv.genomes {o : EpochOpts W} {g0 : Genome W} {p : Pop W} (h : EvalInv o g0 p) :
+    ∀ x ∈ genomesOfPop p, WFT x ∧ Retains g0 x ∧ genesisErr x = none ∧ SharedHead x g0 := by
+  intro x hx
+  have f := h.pool x (List.mem_append_right _ hx)
+  exact ⟨f.wft, retains_of_nodeLineage g0 x (f.nodes g0 (by simp)), genesis_ok x f.wft.wf, f.head g0 (by simp)⟩
+
+theorem evalInv_spawn (o : EpochOpts W) (g0 : Genome W) (rs rs' : List Nat) (p : Pop W) (hw : WFT g0) (hm : g0.modules = [])
+    (h : spawn o g0 rs = .ok (p, rs')) : EvalInv o g0 p :=
+  have k := spawn_popOk o g0 rs rs' p hw hm h
+  ⟨k.uid, k.spid, k.size, k.perm, k.nodup, k.nonempty, spawn_poolOk o g0 rs rs' p hw hm h⟩
+
+theorem pool_eval {g0 : Genome W} {q q' : Pop W} (hp : PoolOk q.reg ([g0] ++ genomesOfPop q)) (he : EvalOk q q') :
+    PoolOk q'.reg ([g0] ++ genomesOfPop q') := by
+  obtain ⟨_, hg, hreg⟩ := he
+  rw [hreg]
+  apply hp.subset
+  intro g hg'
+  rcases List.mem_append.mp hg' with hx | hx
+  · exact List.mem_append_left _ hx
+  · exact List.mem_append_right _ (hg g hx)
+
+theorem evalInv_step (o : EpochOpts W) (g0 : Genome W) (gen : Int) (q q' p' : Pop W) (rs rs' : List Nat)
+    (hi : EvalInv o g0 q) (he : EvalOk q q') (h : nextEpoch o gen q' rs = .ok (p', rs')) : EvalInv o g0 p' := by
+  obtain ⟨hu0, hs0⟩ := sameShape_inv q q' he.1 hi.uid hi.spid
+  obtain ⟨⟨a1, a2, a3, a4, _, _⟩, hu1, hs1⟩ := nextEpoch_popInv o gen q' p' rs rs' hu0 hs0 h
+  exact ⟨hu1, hs1, a1, a3 ▸ List.Perm.refl _, a2, a4, nextEpoch_closed [g0] o gen q' p' rs rs' (pool_eval hi.pool he) h⟩
+
+section Weak
+variable (c : Ctl) (o : EpochOpts W) (g0 : Genome W) (eval : Nat → Nat → Pop W → EvalResult W)
+  (hw : WFT g0) (hm : g0.modules = []) (hev : ∀ t g q, EvalOk q (eval t g q).pop)
+  (rs rs' : List Nat) (out : RealOut W) (h : executeReal c o g0 eval rs = .ok (out, rs'))
+include hw hm hev h
+
+theorem executeReal_weak :
+    (∀ tl ∈ out.log, ∀ gl ∈ tl.gens, EvalInv o g0 gl.pop) ∧
+    (∀ tl ∈ out.log, ∀ p, tl.spawned = some p → (∃ rs0 rs1, spawn o g0 rs0 = .ok (p, rs1)) ∧
+      ∀ gl, tl.gens.head? = some gl → gl.pop = p) ∧
+    (∀ tl ∈ out.log, tl.spawned = none → tl.gens = []) := by
+  unfold executeReal at h
+  split at h
+  · simp only [Except.ok.injEq, Prod.mk.injEq] at h
+    obtain ⟨rfl, _⟩ := h
+    exact ⟨by simp, by simp, by simp⟩
+  · split at h
+    · cases h
+    · next r rs1 hr =>
+      simp only [Except.ok.injEq, Prod.mk.injEq] at h
+      obtain ⟨rfl, _⟩ := h
+      obtain ⟨a1, _, _, a4, a5⟩ := trialLoopR_inv c o g0 eval (fun p _ => EvalInv o g0 p) (fun _ => True) (fun _ => True) True
+        (fun _ _ _ => trivial)
+        (fun t g p rs hi _ => ⟨fun _ => trivial, fun p' rs' he => evalInv_step o g0 _ p _ p' rs rs' hi (hev t g p) he⟩)
+        (fun rs _ => ⟨fun _ => trivial, fun p rs' he => evalInv_spawn o g0 rs rs' p hw hm he⟩)
+        c.runs 0 c.preCancelled rs r rs1 trivial hr (fun _ _ _ _ => trivial)
+      exact ⟨fun tl htl gl hgl => (a1 tl htl gl hgl).elim (fun _ x => x), a4, a5⟩
+
+/-- **C20 over the real population steps, (2) the invariant at every evaluation.**  For every control part, option
+    setting, well-formed non-modular start genome, stream, and every evaluator that touches no genome, not the
+    registry and not which organisms sit where (`EvalOk`: it assigns fitness values and the like): EVERY population
+    handed to the evaluator — in every generation of every trial — satisfies the C02 population invariant (`EvalInv`)
+    and all its genomes are well-formed (C01).  No float fact is needed. -/
+theorem executeReal_evaluated_inv : ∀ tl ∈ out.log, ∀ gl ∈ tl.gens,
+    EvalInv o g0 gl.pop ∧ ∀ x ∈ genomesOfPop gl.pop, WFT x ∧ Retains g0 x ∧ genesisErr x = none ∧ SharedHead x g0 :=
+  fun tl htl gl hgl =>
+    have k := (executeReal_weak c o g0 eval hw hm hev rs rs' out h).1 tl htl gl hgl
+    ⟨k, k.genomes⟩
+
+/-- **generation 0 of every trial is evaluated on the freshly spawned population**: the population handed to the
+    first evaluator call of a trial is what `spawn` returned from the start genome (at the stream position the run
+    had reached) — no trial inherits a population -/
+theorem executeReal_gen0_spawned : ∀ tl ∈ out.log, ∀ gl, tl.gens.head? = some gl →
+    tl.spawned = some gl.pop ∧ ∃ rs0 rs1, spawn o g0 rs0 = .ok (gl.pop, rs1) := by
+  intro tl htl gl hgl
+  obtain ⟨_, a, b⟩ := executeReal_weak c o g0 eval hw hm hev rs rs' out h
+  cases hs : tl.spawned with
+  | none => rw [b tl htl hs] at hgl; cases hgl
+  | some p =>
+    obtain ⟨hsp, hp⟩ := a tl htl p hs
+    rw [hp gl hgl]; exact ⟨rfl, hsp⟩
+
+/-- **C06 applies to generation 0**: every organism evaluated in generation 0 of a trial has exactly the start
+    genome's traits, nodes and genes up to weights, and there are exactly `PopSize` of them, genome ids `0 … PopSize-1` -/
+theorem executeReal_gen0_topology : ∀ tl ∈ out.log, ∀ gl, tl.gens.head? = some gl →
+    (∀ s ∈ gl.pop.species, ∀ m ∈ s.orgs, C06.SameTopology g0 m.genome) ∧
+    ∃ orgs : List (Org W), orgs.length = o.popSize ∧
+      orgs.map (·.genome.id) = (List.range o.popSize).map (fun (i : Nat) => (i : Int)) ∧
+      (∀ x ∈ orgs, ∃ s ∈ gl.pop.species, x ∈ s.orgs) ∧ (∀ s ∈ gl.pop.species, ∀ m ∈ s.orgs, m ∈ orgs) := by
+  intro tl htl gl hgl
+  obtain ⟨_, rs0, rs1, hsp⟩ := executeReal_gen0_spawned c o g0 eval hw hm hev rs rs' out h tl htl gl hgl
+  have hrefs : C06.RefsOk g0 := by
+    refine ⟨hw.wf.traitRefs, hw.wf.endpoints, ?_, ?_⟩ <;> simp [hm]
+  exact C06.spawn_topology o g0 hrefs gl.pop rs0 rs1 hsp
+
+end Weak
+
+/-! ### (3) no spawn / epoch error -/
+
+theorem safe_spawnLoop (g : Genome W) (hw : WFT g) (hm : g.modules = []) :
+    ∀ (n : Nat) (count : Int) (uid : Nat) (rs : List Nat), Safe (fun orgs => orgs.length = n) (spawnLoop g n count uid rs) := by
+  intro n
+  induction n with
+  | zero => intro count uid rs; simp [spawnLoop, Safe]
+  | succ n ih =>
+    intro count uid rs
+    unfold spawnLoop
+    obtain ⟨d, hd, hde, _⟩ := duplicate_wf g count hw hm
+    rw [hd]
+    simp only
+    have h1 := safe_mutateLinkWeights d one one .gaussian rs (by rw [hde]; exact hw.wf.hasGene)
+    split
+    · next e he => rw [he] at h1; exact h1.of_error
+    · next d' rs1 he =>
+      have h2 := ih (count + 1) (uid + 1) rs1
+      split
+      · next e he2 => rw [he2] at h2; exact h2.of_error
+      · next rest rs2 hr =>
+        rw [hr] at h2
+        simp only [Safe] at h2 ⊢
+        simp [h2]
+
+/-- **`NewPopulation` never fails** on a well-formed non-modular start genome with `PopSize ≥ 1` and a non-zero
+    compatibility threshold (running out of a finite stream aside) -/
+theorem safe_spawn (o : EpochOpts W) (g0 : Genome W) (ho : OptsOk o) (hw : WFT g0) (hm : g0.modules = []) (rs : List Nat) :
+    Safe (fun _ => True) (spawn o g0 rs) := by
+  unfold spawn
+  rw [if_neg (by have := ho.popSize; omega)]
+  have h1 := safe_spawnLoop g0 hw hm o.popSize 0 0 rs
+  split
+  · next e he => rw [he] at h1; exact h1.of_error
+  · next orgs rs1 he =>
+    rw [he] at h1
+    have hlen : orgs.length = o.popSize := h1
+    split
+    · next e hl =>
+      exfalso
+      unfold Genome.lastNodeId at hl
+      split at hl
+      · next hnone =>
+        obtain ⟨n, hn, _⟩ := hw.wf.hasOutput
+        rw [List.getLast?_eq_none_iff] at hnone
+        rw [hnone] at hn; cases hn
+      · cases hl
+    · split
+      · next e hl =>
+        exfalso
+        unfold Genome.nextGeneInnov at hl
+        split at hl
+        · next hnone =>
+          rw [List.getLast?_eq_none_iff] at hnone
+          exact hw.wf.hasGene hnone
+        · cases hl
+      · simp only
+        have hne : orgs ≠ [] := by intro e; rw [e] at hlen; have := ho.popSize; simp at hlen; omega
+        split
+        · next e hs =>
+          have h2 : ∀ p, SafeE (fun _ => True) (speciate o p orgs) := fun p => safe_speciate o p orgs hne ho.compat
+          exact (hs ▸ h2 _ : SafeE (fun _ => True) (Except.error e : Except Stop (Pop W))).of_error
+        · trivial
+
+section Strong
+variable (hff : FloatFacts W) (c : Ctl) (o : EpochOpts W) (g0 : Genome W) (eval : Nat → Nat → Pop W → EvalResult W)
+  (ho : OptsOk o) (hw : WFT g0) (hm : g0.modules = []) (hev : ∀ t g q, EvalOk q (eval t g q).pop)
+  (rs rs' : List Nat) (hv : Valid rs) (out : RealOut W) (h : executeReal c o g0 eval rs = .ok (out, rs'))
+  (hq : ∀ tl ∈ out.log, ∀ gl ∈ tl.gens, QuotaOk o gl.after)
+include hff ho hw hm hev hv h hq
+
+theorem executeReal_strong :
+    (∀ tl ∈ out.log, ∀ gl ∈ tl.gens, PopOk (shape g0) o gl.pop) ∧ out.result.err ≠ some .epochFailed ∧
+    (out.result.err = some .spawnFailed → ∃ t, c.verifyOk t = false) := by
+  unfold executeReal at h
+  split at h
+  · simp only [Except.ok.injEq, Prod.mk.injEq] at h
+    obtain ⟨rfl, _⟩ := h
+    exact ⟨by simp, by simp, by simp⟩
+  · split at h
+    · cases h
+    · next r rs1 hr =>
+      simp only [Except.ok.injEq, Prod.mk.injEq] at h
+      obtain ⟨rfl, _⟩ := h
+      obtain ⟨a1, a2, a3, _⟩ := trialLoopR_inv c o g0 eval
+        (fun p rs => PopOk (shape g0) o p ∧ PoolOk p.reg ([g0] ++ genomesOfPop p) ∧ Valid rs) Valid (QuotaOk o) False
+        (fun _ _ hi => hi.2.2)
+        (fun t g p rs hi hQ => by
+          obtain ⟨hp, hpool, hvr⟩ := hi
+          have hyp : Hyp (shape g0) o (eval t g p).pop := ⟨ho, popOk_eval _ o p _ hp (hev t g p), hQ⟩
+          refine ⟨fun ⟨msg, hm'⟩ => nextEpoch_no_error hff _ o _ hyp _ rs hvr msg hm', fun p' rs' he => ?_⟩
+          exact ⟨nextEpoch_popOk hff _ o _ hyp _ rs rs' hvr p' he,
+            nextEpoch_closed [g0] o _ _ p' rs rs' (pool_eval hpool (hev t g p)) he,
+            valid_of_ok (nextEpoch_prefixDet o _ _) hvr he⟩)
+        (fun rs hvr => ⟨fun ⟨msg, hm'⟩ => (safe_spawn o g0 ho hw hm rs).ne msg hm', fun p rs' he =>
+          ⟨spawn_popOk o g0 rs rs' p hw hm he, spawn_poolOk o g0 rs rs' p hw hm he, valid_of_ok (spawn_prefixDet o g0) hvr he⟩⟩)
+        c.runs 0 c.preCancelled rs r rs1 hv hr hq
+      refine ⟨fun tl htl gl hgl => (a1 tl htl gl hgl).elim (fun _ x => x.1), fun e => a2 e, fun e => ?_⟩
+      rcases a3 e with f | f
+      · exact f.elim
+      · exact f
+
+/-- **C20 over the real population steps, (3) no spawn / epoch error.**  Under the hypotheses of
+    `C02.nextEpoch_no_error` — the option facts `OptsOk`, the float facts, a stream of 63-bit values, the C09 quota
+    facts at every population the evaluator returned in this run (what non-negative finite fitness values give in
+    exact arithmetic; decidable on the log) — with a well-formed non-modular start genome, an evaluator that only
+    assigns fitness values (`EvalOk`), and `Verify` succeeding: NO run ends with a spawn error or an epoch error, and
+    every population handed to the evaluator satisfies the full hypothesis `PopOk` of the C02 no-error theorem. -/
+theorem executeReal_no_epoch_error (hver : ∀ t, c.verifyOk t = true) :
+    out.result.err ≠ some .epochFailed ∧ out.result.err ≠ some .spawnFailed ∧
+    ∀ tl ∈ out.log, ∀ gl ∈ tl.gens, PopOk (shape g0) o gl.pop := by
+  obtain ⟨a, b, d⟩ := executeReal_strong hff c o g0 eval ho hw hm hev rs rs' hv out h hq
+  refine ⟨b, fun e => ?_, a⟩
+  obtain ⟨t, ht⟩ := d e
+  rw [hver t] at ht; cases ht
+
+/-- **how a run can end**: with options present, a supported executor type and the hypotheses above, a run of
+    `Execute` over the real population steps ends in exactly one of three ways — all `runs` trials completed and
+    recorded (nil), the context's error (cancellation), or the evaluator's own error for the generation it failed in -/
+theorem executeReal_ends (hver : ∀ t, c.verifyOk t = true) (hopt : c.hasOptions = true) (hex : c.execOk = true) :
+    (out.result.err = none ∧ out.result.trials.length = c.runs) ∨ out.result.err = some .cancelled ∨
+    ∃ t g, out.result.err = some (.evalFailed t g) ∧ (inducedScript c out.log).evalRes t g = .fail := by
+  obtain ⟨n1, n2, _⟩ := executeReal_no_epoch_error hff c o g0 eval ho hw hm hev rs rs' hv out h hq hver
+  cases he : out.result.err with
+  | none =>
+    have := (executeReal_complete c o g0 eval rs rs' out h he).1
+    exact .inl ⟨rfl, by rw [this]; simp⟩
+  | some e =>
+    obtain ⟨k, _, _, tail, _, hab⟩ := executeReal_abort c o g0 eval rs rs' out h hopt e he
+    rcases hab with ⟨rfl, _⟩ | ⟨_, hx, _⟩ | ⟨m, _, evs, hga, _⟩
+    · exact absurd he n2
+    · have : c.execOk = false := hx
+      rw [hex] at this; cases this
+    · rcases hga with ⟨rfl, _⟩ | ⟨rfl, hf, _⟩ | ⟨rfl, _⟩
+      · exact .inr (.inl rfl)
+      · exact .inr (.inr ⟨k, 0 + m, rfl, hf⟩)
+      · exact absurd he n1
+
+end Strong
+
 end GoNeat.C20
